@@ -8,12 +8,12 @@ lc=$(echo "$id" | tr 'A-Z' 'a-z')
 cd "$VERIF_ROOT"
 B=$PWD/.build/mc/$lc
 rm -rf "$B"; mkdir -p "$B" bin
-( cd rewriter && go build -o ../bin/gomc-rewrite . ) || { echo "INFRASTRUCTURE ERROR: transformer build failed" >&2; exit 2; }
+( cd rewriter && GOFLAGS=-mod=mod go build -o ../bin/gomc-rewrite . ) || { echo "INFRASTRUCTURE ERROR: transformer build failed" >&2; exit 2; }
 GOMC_DIR=$PWD bin/gomc-rewrite -out "$B" -tags verif,mcbuild \
   github.com/bradenaw/juniper/stream github.com/bradenaw/juniper/chans github.com/bradenaw/juniper/parallel \
   github.com/bradenaw/juniper/xsync github.com/bradenaw/juniper/xtime github.com/bradenaw/juniper/iterator \
   golang.org/x/sync/errgroup verif/props/sx verif/props/$lc/scn $(cat props/$lc/mcpkgs 2>/dev/null) > "$B/rewrite.log" 2>&1 || { cat "$B/rewrite.log" >&2; echo "INFRASTRUCTURE ERROR: transformation failed" >&2; exit 2; }
-sed "s|^replace golang.org/x/sync => .*|replace golang.org/x/sync => $B/xsync|" go.mc.mod > "$B/go.mod"
+sed -e "s|^replace golang.org/x/sync => .*|replace golang.org/x/sync => $B/xsync|" -e "s|=> /repo\$|=> ${VERIF_REPO:-/repo}|" go.mc.mod > "$B/go.mod"
 cp go.sum "$B/go.sum"
 go build -tags verif,mcbuild -modfile="$B/go.mod" -overlay "$B/overlay.json" -o "bin/${lc}_mc" ./props/$lc 2> "$B/build.log" || { cat "$B/build.log" >&2; echo "INFRASTRUCTURE ERROR: build of transformed code failed" >&2; exit 2; }
 # Optional free-running -race side pass over the same scenario bodies (props/<id>/racemain.go,
